@@ -164,6 +164,7 @@ RetOwner(op, tag, tag2) ==
       [] op \in CapacityOps \cup {"capacity"} -> {"C13"}
       [] op \in {"len", "is_empty", "current_size"} -> {"C02"}
       [] op = "max_size" -> {"C01"}
+      [] op = "hasher" -> {"C19"}
       [] op \in IterKinds -> {"C12"}
       [] OTHER -> {"C04"}
 
